@@ -181,8 +181,20 @@ def gen_base_mesh(rng, max_points=36, **kw):
     return best
 
 
-def gen_structured_input(rng):
-    kind = rng.choice(["S", "S", "R", "I"])
+def object_digest(obj):
+    """bytes of everything a MeshFields object exposes: points, connectivity per type, point / cell field values"""
+    dom = obj.domain
+    parts = [("P", np.ascontiguousarray(np.asarray(dom.points)).tobytes())]
+    for ct in dom.cell_types:
+        parts.append(("K:" + ct.name, np.ascontiguousarray(np.asarray(dom.connectivity(ct))).tobytes()))
+    for f in obj:
+        v = np.asarray(f.values)
+        parts.append(("F:" + f.name, str(v.dtype), v.shape, np.ascontiguousarray(v).tobytes()))
+    return parts
+
+
+def gen_structured_input(rng, kind=None):
+    kind = kind or rng.choice(["S", "S", "R", "I"])
     d = rng.choice([1, 2, 2, 3])
     ext = [rng.randint(1, 2) for _ in range(d)] + [0] * (3 - d)
     if rng.random() < 0.3:
@@ -219,7 +231,7 @@ def build_structured(spec):
                       cell_data={"sc": [np.array(spec["cf"], dtype=np.float64) for _ in cts]})
 
 
-def gen_history_case(rng):
+def gen_history_case(rng, directed_image=False):
     """logical inputs + a list of abstract operations; operands are chosen at run time from the pool (index modulo,
     then the next pool object that fits the operation)"""
     a, mt = gen_base_mesh(rng, allow_duplicates=False)
@@ -251,8 +263,8 @@ def gen_history_case(rng):
     gen_fields_simple(rng, p)
     inputs.append({"lm": p, "role": "P-" + pt["style"]})
     # S: a structured grid (curvilinear / rectilinear / image mesh object of the public API) with a point and a cell field
-    if rng.random() < 0.5:
-        inputs.append(gen_structured_input(rng))
+    if directed_image or rng.random() < 0.5:
+        inputs.append(gen_structured_input(rng, kind="I" if directed_image else None))
     n = rng.randint(3, 8)
     ops = []
     for _ in range(n):
@@ -265,8 +277,16 @@ def gen_history_case(rng):
         if name == "extend":
             op["d"] = rng.choice([0, 1, 1, 2])     # dim + d (capped at 3); 0 = same dimension
         ops.append(op)
-    return {"kind": "history", "inputs": inputs, "ops": ops, "read_back": rng.random() < 0.35,
+    case = {"kind": "history", "inputs": inputs, "ops": ops, "read_back": rng.random() < 0.35,
             "style": mt["style"]}
+    if directed_image or rng.random() < 0.5:
+        # an unrelated image file (with or without an orientation of its own) is read in between
+        c_, s_ = 0.6, 0.8
+        rot = [[c_, -s_, 0.0], [s_, c_, 0.0], [0.0, 0.0, 1.0]]
+        case["distractions"] = {str(rng.randrange(len(ops))): {
+            "ext": [rng.randint(1, 2), rng.randint(0, 2), 0], "origin": [0.5, -1.0, 2.0], "spacing": [1.0, 0.5, 2.0],
+            "direction": rng.choice([rot, rot, None, [[0.0, 1.0, 0.0], [-1.0, 0.0, 0.0], [0.0, 0.0, 1.0]]])}}
+    return case
 
 
 # ---------------------------------------------------------------- running a history on the implementation
@@ -341,6 +361,10 @@ def exec_history(case, workroot, tag):
                 in_files.append(path)
                 pool.append((read_field_data(path), "mesh"))
     rec["n_initial"] = len(pool)
+    # what every initial object exposes through its public accessors (points, connectivity, field values), as bytes:
+    # must be the same after every step, whatever else happened in the process in between
+    digest0 = [object_digest(o) for o, _ in pool]
+    rec["content_changed"] = []
     # tracked arrays of the initial objects
     held = {}
     enc, nid = [], 0
@@ -390,6 +414,23 @@ def exec_history(case, workroot, tag):
                         break
             if name == "frommeshio":
                 i = mio_idx[op["x"] % len(mio_idx)]
+            dis = (case.get("distractions") or {}).get(str(step))
+            if dis is not None:
+                # something unrelated happens in the same process first: another file is read and thrown away
+                with _quiet():
+                    try:
+                        from fcv import history_p5d
+                        history_p5d.read_vti(dis["ext"], dis["origin"], dis["spacing"], dis.get("direction"))
+                    except Exception as e:  # noqa: BLE001
+                        rec["content_changed"].append(f"before step {step}: reading an unrelated .vti raised {type(e).__name__}")
+                for k, inp in enumerate(case["inputs"]):
+                    if "structured" in inp:
+                        with _quiet():
+                            twin = object_digest(build_structured(inp["structured"]))
+                        if twin != digest0[k]:
+                            rec["content_changed"].append(
+                                f"before step {step}: a data set constructed exactly like input {k} ({inp['role']}) after "
+                                f"reading an unrelated .vti file differs from the one constructed before")
             before_a = snap_arrays(held)
             before_f = snap_files(in_files)
             before_l = (listing(cwd), listing(outdir), listing(indir))
@@ -503,6 +544,16 @@ def exec_history(case, workroot, tag):
                   "files_changed": [p for p in before_f if before_f[p] != after_f[p]], "newfiles": newfiles,
                   "requested": requested, "extra": extra, "acc": acc, "same_as": same_as, "i": i, "j": j}
             rec["steps"].append(st)
+            with _quiet():
+                for k in range(rec["n_initial"]):
+                    try:
+                        now = object_digest(pool[k][0])
+                    except Exception as e:  # noqa: BLE001
+                        now = f"unreadable: {type(e).__name__}"
+                    if now != digest0[k]:
+                        rec["content_changed"].append(f"step {step} ({proto}): input object {k} no longer exposes the points / "
+                                                      f"cells / values it had at the beginning")
+                        digest0[k] = now
             if ok and res is not None:
                 pool.append(res)
                 for key, (a, _) in acc.items():
@@ -553,6 +604,7 @@ def judge_history(ctx, case, rec, rep):
     for key, runs in rec["compare_keys"].items():
         if any(r != runs[0] for r in runs):
             viol.append(f"repeated evaluation {key} disagrees: {runs[:4]}")
+    viol += rec.get("content_changed", [])[:4]
     if rep is None:
         return viol, mism
     # ---- the model
@@ -691,11 +743,16 @@ def shrink_history(case, workroot):
     for k in range(len(ops)):
         n += 1
         c2 = dict(case, ops=[ops[k]])
+        if case.get("distractions"):
+            first = [d for i, d in sorted(case["distractions"].items(), key=lambda t: int(t[0])) if int(i) <= k]
+            c2["distractions"] = {"0": first[0]} if first else {}
         if property_complaints(c2, workroot, f"s{n}"):
             return c2
     for k in range(1, len(ops)):
         n += 1
         c2 = dict(case, ops=ops[:k])
+        if case.get("distractions"):
+            c2["distractions"] = {i: d for i, d in case["distractions"].items() if int(i) < k}
         if property_complaints(c2, workroot, f"s{n}"):
             return c2
     return case
@@ -919,7 +976,9 @@ def eval_process_case(ctx, c, workroot, tag):
 
 def run(ctx):
     ctx.rule = ("cases: (i) histories of 3-8 public operations on a shared pool of 4-6 data sets (a mesh, a relabeled copy, a second "
-                "piece, a pixel/voxel mesh, optionally the same data read back from files) — every step snapshots all tracked "
+                "piece, a pixel/voxel mesh, optionally a structured / rectilinear / image grid object, optionally the same data read back "
+                "from files; optionally an unrelated .vti file with an orientation of its own is read between two steps) — every step "
+                "re-reads everything the initial objects expose (points, cells, values) and snapshots all tracked "
                 "arrays/files/directories and records stored/computed + alias sets of every exposed result array; (ii) histories of "
                 "2-8 events on one predicate object (calls on fields of magnitude 1e-9..1e12, dtypes f64/f32/int/str, tolerance "
                 "setters); (iii) CLI comparisons in-process twice and in a subprocess. non-trivial = a history with >= 2 steps and a "
@@ -936,7 +995,8 @@ def run(ctx):
         n_hist = ctx.scale(140, 12000)
         CH = 70
         for i in range(0, n_hist, CH):
-            cases = [gen_history_case(rng) for _ in range(min(CH, n_hist - i))]
+            # every 10th history is directed: an image grid of the API in the pool AND an unrelated .vti read in between
+            cases = [gen_history_case(rng, directed_image=(k % 10 == 3)) for k in range(min(CH, n_hist - i))]
             eval_histories(ctx, cases, workroot, base=i)
         cases = [gen_pred_case(rng) for _ in range(ctx.scale(500, 20000))]
         eval_pred_cases(ctx, cases)
